@@ -1,0 +1,37 @@
+//go:build verif
+
+package conway
+
+// Contracts for /verif (contract-based deductive verification). Comment-only.
+
+// C26: validity interval. 0 is the repository's representation of an absent bound.
+//@ func UtxoValidateOutsideValidityIntervalUtxo(tx, slot, ls, pp) (err)
+//@   props C26
+//@   let start = tx.ValidityIntervalStart()
+//@   let ttl = tx.TTL()
+//@   ensures lower: err == nil ==> start == 0 || slot >= start
+//@   ensures upper: err == nil ==> ttl == 0 || slot < ttl
+//@   cover accepts: err == nil && start != 0 && ttl != 0
+
+// C33: DRep-delegation gate on reward withdrawals, only at protocol major versions 10 and 11
+// (the literals are the property's, not the repository's constants).
+//@ func UtxoValidateWithdrawals(tx, slot, ls, pp) (err)
+//@   props C33
+//@   let w = tx.Withdrawals()
+//@   let pv = pp.ProtocolMajorVersion()
+//@   let hasPV = implements(pp, "interface{ProtocolMajorVersion() uint}")
+//@   let isDS = implements(ls, "common.DRepDelegationState")
+//@   let sh = shelley.UtxoValidateWithdrawals(tx, slot, ls, pp)
+//@   ensures invalid: !tx.IsValid() ==> err == nil
+//@   ensures shelley: tx.IsValid() && sh != nil ==> err == sh
+//@   ensures nogate: tx.IsValid() && sh == nil && hasPV && (pv < 10 || pv >= 12) ==> err == nil
+//@   ensures gate: tx.IsValid() && hasPV && (pv == 10 || pv == 11) && len(w) != 0 && err == nil ==>
+//@        forall a *common.Address :: a in w && w[a] != nil && val(w[a]) != 0 && a.StakeCredential$ok() ==>
+//@            ls.DRepDelegation$0(a.StakeCredential$cred()) != nil
+//@   ensures unavailable: tx.IsValid() && sh == nil && hasPV && (pv == 10 || pv == 11) && !isDS &&
+//@        (exists a *common.Address :: a in w && w[a] != nil && val(w[a]) != 0) ==>
+//@            dyn(err) == type(DRepDelegationStateUnavailableError)
+//@   loop 0 invariant delegationState == nil || (delegationState == ls && isDS)
+//@   loop 0 invariant forall a *common.Address :: visited[a] && w[a] != nil && val(w[a]) != 0 && a.StakeCredential$ok() ==>
+//@            ls.DRepDelegation$0(a.StakeCredential$cred()) != nil
+//@   loop 0 invariant !isDS ==> forall a *common.Address :: visited[a] ==> w[a] == nil || val(w[a]) == 0
